@@ -53,7 +53,7 @@ def is_success(n):
 
 def run(chk, facts, tier):
     chk.rule('no-stuck-flag', 'csc_write_control_point: no path returns an error code (first != success) with procedure_in_progress_ left set by this call', floor=1)
-    chk.rule('busy-only-when-pending', 'procedure_already_in_progress is returned only on the procedure_in_progress_ == true edge, before the flag is set', floor=1)
+    chk.rule('busy-only-when-pending', 'procedure_already_in_progress is returned only on the procedure_in_progress_ == true edge, before the flag is set; every return that announces a response indication (success, true) leaves the flag set by this call', floor=2)
     chk.rule('response-clears-and-echoes', 'csc_read_control_point clears procedure_in_progress_ on every path and writes the request opcode (case constant / current_opcode_) into out_buffer[1]; '
              'csc_write_control_point stores current_opcode_ = *value before dispatch', floor=2)
     for fn in variants(facts, CP + 'csc_write_control_point', chk):
@@ -90,6 +90,11 @@ def run(chk, facts, tier):
             chk.instance('no-stuck-flag', fn, 'return (%s, %s) with flag %s' % (code.text(), pa[1].text(), '/'.join(sorted(flags))), ok,
                          '' if ok else 'the write is rejected with %s but procedure_in_progress_ stays set: every later control point write gets Procedure Already In Progress' % code.text(),
                          node=r, key='return %s guarded by %s' % (code.text(), '&'.join(sorted(a[0].text() + a[1] + (str(a[2]) if isinstance(a[2], int) else a[2].text()) for a in guard_atoms(fn, r)))[:120]))
+            if not err and (cval(pa[1]) == 1 or pa[1].n == 'true'):
+                ok3 = flags == {'set'}
+                chk.instance('busy-only-when-pending', fn, 'return (success, indicate) with flag %s' % '/'.join(sorted(flags)), ok3,
+                             '' if ok3 else 'a response indication is announced but procedure_in_progress_ is not (or no longer) set on this path: a second control point write is accepted before the response went out, its opcode overwrites the pending one and one procedure never gets its response',
+                             node=r, key='pending %s' % '&'.join(sorted(a[0].text() + a[1] + (str(a[2]) if isinstance(a[2], int) else a[2].text()) for a in guard_atoms(fn, r)))[:100])
             if code.n == 'procedure_already_in_progress':
                 ats = guard_atoms(fn, r)
                 g = has_atom(ats, lambda n: is_name(n, FLAG), {'!='}, lambda o: cval(o) == 0)
